@@ -382,7 +382,11 @@ pub fn run(opts: &Opts) -> i32 {
         plan.push((BackendKind::GitRemote, Target::SyncAddVersion));
         plan.push((BackendKind::GitRemote, Target::AddSnapshot));
     }
+    let only = std::env::var("TCMC_BACKEND").ok();
     for (backend, target) in plan {
+        if only.as_ref().is_some_and(|o| format!("{backend:?}") != *o) {
+            continue;
+        }
         let scs = match scenarios_for(backend, target) {
             Ok(s) => s,
             Err(e) => {
